@@ -18,6 +18,11 @@ fn main() {
     out.push_str("    ]\n}\n");
     let dest = Path::new(&env::var("OUT_DIR").unwrap()).join("shorts.rs");
     fs::write(dest, out).unwrap();
+    // the current source of the lock crate, to be compiled against shuttle's Mutex (see src/e_lock.rs)
+    let lock_src = fs::read_to_string("/repo/crates/lock/src/lib.rs").unwrap();
+    let stripped: String = lock_src.lines().filter(|l| !l.trim_start().starts_with("//!") && !l.trim_start().starts_with("#![")).collect::<Vec<_>>().join("\n");
+    fs::write(Path::new(&env::var("OUT_DIR").unwrap()).join("lock_src.rs"), stripped).unwrap();
+    println!("cargo:rerun-if-changed=/repo/crates/lock/src/lib.rs");
     println!("cargo:rerun-if-changed=/repo/crates/asm-spec/asm.yml");
     println!("cargo:rerun-if-changed=build.rs");
 }
